@@ -63,23 +63,35 @@ def ensure_driver():
     return drv
 
 
+def _mtime(p):
+    # concurrent runs prune the same cache: an entry may vanish between listdir and stat
+    try:
+        return os.path.getmtime(p)
+    except OSError:
+        return 0.0
+
+
 def _prune_cache(keep):
     try:
         ents = [os.path.join(CACHE, d) for d in os.listdir(CACHE) if d.startswith("facts-")]
     except OSError:
         return
-    ents.sort(key=lambda p: os.path.getmtime(p), reverse=True)
+    ents.sort(key=_mtime, reverse=True)
     now = time.time()
     for p in ents[40:]:
         # keep anything used in the last 30 minutes (parallel self-test / scratch runs must not evict /repo's facts)
-        if p != keep and now - os.path.getmtime(p) > 1800:
+        if p != keep and now - _mtime(p) > 1800:
             shutil.rmtree(p, ignore_errors=True)
     for p in ents[400:]:
         if p != keep:
             shutil.rmtree(p, ignore_errors=True)
-    for d in os.listdir(CACHE):
+    try:
+        names = os.listdir(CACHE)
+    except OSError:
+        names = []
+    for d in names:
         p = os.path.join(CACHE, d)
-        if d.startswith("tgt.") and time.time() - os.path.getmtime(p) > 3600:
+        if d.startswith("tgt.") and os.path.exists(p) and time.time() - _mtime(p) > 3600:
             shutil.rmtree(p, ignore_errors=True)
 
 
